@@ -1,4 +1,5 @@
 import BS.Proofs.Merge
+import BS.Proofs.MergeSort
 import BS.Properties.C10
 /-!
 # C10 (the reduce-merge machine) — `sortio.Reduce` as it runs
@@ -22,5 +23,23 @@ theorem reduce_machine_sorted (comb : Int → Int → Int) (hc : ∀ a b, comb a
   rw [reduce_machine_spec comb hc ha ss hs]; exact reduceAll_strictSorted comb ss
 
 example : run (· + ·) 10 [[(1, 1), (4, 4)], [], [(1, 10), (2, 2), (4, 40)]] = [(1, 11), (2, 2), (4, 44)] := by decide
+
+/-! ## the plain merge reader as it runs (`NewMergeReader`, sortio/sort.go:161-222)
+
+`mrun choose` emits the row under *a* cursor whose key is least and advances that cursor; which of several equal cursors
+is at the top of the heap is left to `choose`.  For **every** legal choice, every number of streams and every length:
+the output is a permutation of all rows and sorted by key. -/
+theorem merge_machine_spec (choose : List (List KV) → Nat) (hch : ∀ ss, minKey ss ≠ none → Legal ss (choose ss))
+    (ss : List (List KV)) (hs : AllSorted ss) :
+    (mrun choose ss.flatten.length ss).Perm ss.flatten ∧ Sorted (mrun choose ss.flatten.length ss) :=
+  mrun_spec choose hch _ ss hs (Nat.le_refl _)
+
+/-- the hypothesis is satisfiable: taking the first least cursor is a legal choice (the oracle of the driver) -/
+theorem merge_machine_leftmost (ss : List (List KV)) (hs : AllSorted ss) :
+    (mrun leftmost ss.flatten.length ss).Perm ss.flatten ∧ Sorted (mrun leftmost ss.flatten.length ss) :=
+  merge_machine_spec leftmost leftmost_legal ss hs
+
+example : mrun leftmost 6 [[(1, 1), (4, 4)], [], [(1, 10), (2, 2), (4, 40)]] = [(1, 1), (1, 10), (2, 2), (4, 4), (4, 40)] := by
+  decide
 
 end BS.Merge
